@@ -308,11 +308,9 @@ func RunWorker(o WorkerOpts) *WorkerResult {
 				fv.Known = k.What
 			}
 			perRule[viol.Rule]++
-			if len(seen) > 40 || perRule[viol.Rule] > 4 {
-				continue // enough distinct findings of this kind; keep counting only
-			}
 			sp, sv, n := p, viol, 0
-			if !ck.NoShrink {
+			// enough minimised examples of this kind already: record this one as found, unshrunk
+			if !ck.NoShrink && len(seen) <= 40 && perRule[viol.Rule] <= 4 {
 				sp, sv, n = shrinkPlan(ck, p, o.Prop, viol)
 			}
 			rf := &ReplayFile{Property: o.Prop, Fingerprint: fp, VerifSeed: o.Seed, RunSeed: fmt.Sprintf("%016x", rs), Tier: o.Tier,
